@@ -1020,6 +1020,65 @@ Lemma restored_outcomes :
   = ([(10, St_Freezing); (20, St_Available)], 0, [(10, St_Pause); (20, St_Available)], 2)%N.
 Proof. vm_compute. reflexivity. Qed.
 
+(** ** why the cascade is not proved "for ever after": withdrawing a LOCKED proposal
+    The appchain's freeze is submitted, an update of service 10 is pending, its logout is submitted and locks the
+    update (service logouting), the freeze is approved (a logouting service is not pausable and stays logouting),
+    and now the service's admin WITHDRAWS the locked update: governance rejects it against the object as it is -
+    "reject" fires from logouting with the update's last status - and the service is available on a frozen appchain
+    while its logout is still open.  Confirmed on the real code (corpus/C16_w08); with the withdrawal of paused
+    proposals refused the history satisfies the property. *)
+Definition h_withdraw_locked : list op :=
+  (setup ++ [OChainOp 1 1; OSvcOp 0 10 []; OSvcOp 3 10 []; OConclude 1 true; OWithdraw 1; OIbtp 10 20; OIbtp 20 10])%list.
+
+Lemma withdraw_locked_refuted : P_b h_withdraw_locked (model_trace (cfg_of_bits5 false true false false true) h_withdraw_locked) = false.
+Proof. vm_compute. reflexivity. Qed.
+Lemma withdraw_locked_fixed : P_b h_withdraw_locked (model_trace (cfg_of_bits5 false true false false false) h_withdraw_locked) = true.
+Proof. vm_compute. reflexivity. Qed.
+Lemma withdraw_locked_outcomes :
+  let tr := model_trace (cfg_of_bits5 false true false false true) h_withdraw_locked in
+  let o := last tr obs0 in
+  (ob_chains o, map (fun e => (fst e, sv_status (snd e))) (ob_svcs o), map ob_out (skipn 13 tr), ob_props o)
+  = ([(1, St_Frozen); (2, St_Available)], [(10, St_Available); (20, St_Available)], [0; 0], [2; 2; 2; 2; 2; 3; 0])%N.
+Proof. vm_compute. reflexivity. Qed.
+
+(** bounded evidence for the full cascade statement once paused proposals cannot be withdrawn: from a world with one
+    appchain and two services, EVERY sequence of at most 5 operations over the alphabet below (all appchain and
+    service operations, a permission-only update, a master-rule update, a further registration, decisions on the
+    three newest open proposals, withdrawals) keeps: a registered service of an appchain that is not available is
+    parked (pause, logouting, forbidden, registering, unavailable) *)
+Definition parked (st : string) : bool := mem_s st [St_Pause; St_Logouting; St_Forbidden; St_Registing; St_Unavailable].
+Definition cascade_inv_b (s : state) : bool :=
+  forallb (fun e : N * svc =>
+     negb (sv_reg (snd e)) ||
+     match nget (sv_chain (snd e)) (chains s) with
+     | Some st => chain_avail st || parked (sv_status (snd e))
+     | None => true
+     end) (svcs s).
+Definition casc_alphabet : list op :=
+  [OChainOp 0 1; OChainOp 1 1; OChainOp 2 1; OChainOp 3 1;
+   OSvcOp 0 10 []; OSvcOp 1 10 []; OSvcOp 2 10 []; OSvcOp 3 10 []; OSvcOp 3 11 []; OSvcOp 1 11 [];
+   OSvcBlack 10 [11]; ORuleUpdate 1 1; ORegSvc 1 12 [];
+   OConclude 0 true; OConclude 0 false; OConclude 1 true; OConclude 1 false; OConclude 2 true; OConclude 2 false; OWithdraw 0; OWithdraw 1]%N.
+Definition casc_start (f : cfg) : state :=
+  run_ops f st0 [ORegChain 1; OConclude 0 true; ORegSvc 1 10 []; OConclude 0 true; ORegSvc 1 11 []; OConclude 0 true]%N.
+(** depth-first over all sequences; an operation that fails leaves the state as it was (flags off) and is pruned *)
+Fixpoint casc_dfs (f : cfg) (n : nat) (s : state) (path : list op) : option (list op) :=
+  if negb (cascade_inv_b s) then Some (rev path)
+  else match n with
+       | O => None
+       | S n' => fold_left (fun acc a => match acc with
+                                         | Some p => Some p
+                                         | None => let r := step f s a in if r_ok r then casc_dfs f n' (r_state r) (a :: path) else None
+                                         end) casc_alphabet None
+       end.
+
+Lemma cascade_bounded : casc_dfs (cfg_of_bits5 false true false false false) 5 (casc_start (cfg_of_bits5 false true false false false)) [] = None.
+Proof. vm_compute. reflexivity. Qed.
+Lemma cascade_bounded_refuted :
+  casc_dfs (cfg_of_bits5 false true false false true) 5 (casc_start (cfg_of_bits5 false true false false true)) []
+  = Some [OChainOp 1 1; OSvcOp 0 10 []; OSvcOp 3 10 []; OConclude 1 true; OWithdraw 1]%N.
+Proof. vm_compute. reflexivity. Qed.
+
 (** a cache keyed by the case-folded id (ids 28 and 29 under one key): with only 28 registered, a request to the
     unregistered 29 finds 28's cached record and is recorded BEGIN; with both registered and 28 frozen, an event of
     29 overwrites the shared entry and 28 is usable again; a restarted node (empty cache) answers by the store *)
